@@ -303,6 +303,14 @@ WantNeverUnsent == Idle => \A c \in Cids : bp[c].t = 0 /\ pp[c].t = 0 /\ cancels
 InFlightCancel(c) == \/ (pc \in {"build", "finish"} /\ c \in snapC)
                      \/ (pc = "send" /\ msg[c].t # 0 /\ msg[c].cancel)
 CancelNeverLeftActive == \A c \in Cids : (held[c] # 0 /\ cwP[c] = 0 /\ ~cwB[c]) => (cancels[c] # 0 \/ InFlightCancel(c))
+\* what the sent lists say the peer holds for c (a broadcast want travels as WireType("b", 1))
+SentSays(c) == Max(IF bs[c].t # 0 THEN WireType("b", 1) ELSE 0, ps[c].t)
+\* the queue's memory of what it sent is exact once it is idle: AddCancels emits a cancel only for a CID on a sent
+\* list, so a sent want of EITHER type must survive every later request of a different type for the same CID
+\* (want-have after want-block, want-block after want-have, broadcast + peer want), with and without HAVE support
+SentListFaithful == Idle => \A c \in Cids : held[c] = SentSays(c)
+\* at any time: a want the peer holds is on a sent list, or its cancel is queued / in flight
+HeldIsRemembered == \A c \in Cids : held[c] # 0 => (bs[c].t # 0 \/ ps[c].t # 0 \/ cancels[c] # 0 \/ InFlightCancel(c))
 NoHaveToLegacyPeer == ~sh => \A c \in Cids : msg[c].t # 1 /\ held[c] # 1
 TypeOK == /\ pc \in {"rest", "snap", "build", "finish", "send", "onsent", "count"}
           /\ \A c \in Cids : bp[c].t \in {0, 1} /\ bs[c].t \in {0, 1} /\ pp[c].t \in 0..2 /\ ps[c].t \in 0..2
